@@ -4344,7 +4344,11 @@ async fn handle_connected_state_no_dtls(
                             if let Some(inner) = inner_weak.upgrade() {
                                 propagate_sctp_close_reason(&inner);
                                 if !is_ice_failed_or_closed(*ice_state_rx.borrow()) {
+                                    #[cfg(rustrtc_verif)]
+                                    inner.vprobe("pre:nodtls.loops_done");
                                     inner.report_transport_ended();
+                                    #[cfg(rustrtc_verif)]
+                                    inner.vemit("pub", "nodtls.loops_done");
                                 }
                                 #[cfg(rustrtc_verif)]
                                 inner.vemit("loops_done", "nodtls");
@@ -4490,7 +4494,11 @@ async fn handle_connected_state(
                                         let Some(inner) = inner_weak.upgrade() else { return false; };
                                         propagate_sctp_close_reason(&inner);
                                         if !is_ice_failed_or_closed(*ice_state_rx.borrow()) {
+                                            #[cfg(rustrtc_verif)]
+                                            inner.vprobe("pre:conn.loops_done");
                                             inner.report_transport_ended();
+                                            #[cfg(rustrtc_verif)]
+                                            inner.vemit("pub", "conn.loops_done");
                                         }
                                         #[cfg(rustrtc_verif)]
                                         inner.vemit("loops_done", "conn");
@@ -4599,7 +4607,11 @@ async fn handle_connected_state(
                                         let Some(inner) = inner_weak.upgrade() else { return false; };
                                         propagate_sctp_close_reason(&inner);
                                         if !is_ice_failed_or_closed(*ice_state_rx.borrow()) {
+                                            #[cfg(rustrtc_verif)]
+                                            inner.vprobe("pre:conn.loops_done");
                                             inner.report_transport_ended();
+                                            #[cfg(rustrtc_verif)]
+                                            inner.vemit("pub", "conn.loops_done");
                                         }
                                         #[cfg(rustrtc_verif)]
                                         inner.vemit("loops_done", "connx");
